@@ -666,6 +666,11 @@ pub async fn run_writer(cell: StreamCell, stream: usize, end: usize, ops: Vec<WO
                     let mut g = cell.borrow_mut();
                     match g.as_mut() {
                         None => Poll::Ready(None),
+                        // one shutdown in three through the public `do_shutdown` (what `poll_shutdown` wraps)
+                        Some(s) if (stream + off) % 3 == 2 => {
+                            s.do_shutdown();
+                            Poll::Ready(Some(Ok(())))
+                        }
                         Some(s) => Pin::new(s).poll_shutdown(cx).map(Some),
                     }
                 })
@@ -689,11 +694,14 @@ pub async fn run_writer(cell: StreamCell, stream: usize, end: usize, ops: Vec<WO
             WOp::Write(len) => {
                 let buf: Vec<u8> = (0..len as usize).map(|i| pay(stream, dir, off + i)).collect();
                 let mut blocked = false;
+                let direct = len > 0 && (stream + off + len as usize) % 4 == 3;
                 let r = poll_fn(|cx| {
                     let mut g = cell.borrow_mut();
                     match g.as_mut() {
                         None => Poll::Ready(None),
-                        Some(s) => match Pin::new(s).poll_write(cx, &buf) {
+                        // one write in four goes through the public lower-level entry point `poll_write_push` (what `poll_write` wraps;
+                        // `None` = closed = BrokenPipe) instead of the AsyncWrite impl
+                        Some(s) => match if direct { s.poll_write_push(cx, &buf).map(|r| r.map(|()| buf.len()).ok_or_else(|| std::io::Error::from(std::io::ErrorKind::BrokenPipe))) } else { Pin::new(s).poll_write(cx, &buf) } {
                             Poll::Pending => {
                                 note_pending(cx);
                                 if !blocked {
